@@ -226,6 +226,11 @@ BREAKING = [
     ('c15-range-index-off-by-one', ['C15'], [(A, '    for i, raw_line in enumerate(source.splitlines(), start=1):\n', '    rows = source.splitlines()\n    for i in range(1, len(rows) + 1):\n        raw_line = rows[i - 1]\n'), (A, '        line = Line(path, i, raw_line)\n', '        line = Line(path, i + 1, raw_line)\n')]),
     ('c15-blobs-any-guard-skips-pass', ['C15'], [(A, "    output = bytearray()\n    for item in items:\n        if not isinstance(item, Blob):\n            raise ValueError('expected only blobs at this point')\n\n        output.extend(item.data)\n", "    if any(not isinstance(item, Blob) for item in items):\n        raise ValueError('expected only blobs at this point')\n\n    output = bytearray()\n    for item in items:\n        output.extend(item.data)\n"), (A, '    items = resolve_strings(items)\n', '')]),
     ('c15-range-guard-one-side', ['C15'], [(A, "        blob = Blob(item.line, data)\n        new_items.append(blob)\n\n        log_conversion('resolve_include_bytes', item, blob)", "        size = item.fsize\n        if size < 0:\n            raise AssemblerError('bad size', item.line)\n        log.info('size field: {}'.format(struct.pack('<I', size).hex()))\n        blob = Blob(item.line, data)\n        new_items.append(blob)\n\n        log_conversion('resolve_include_bytes', item, blob)")]),
+    ('c15-none-line-before-opaque-code', ['C15'], [(A, "            raise AssemblerError('alignment must be an integer', line)\n", "            raise AssemblerError('alignment must be an integer', None)\n"), (A, 'def resolve_blobs(items):\n', "def resolve_blobs(items):\n    exec('pass')\n")]),
+    # round 7: table lookups with user keys, conversions behind the repository's own predicate, elements read back
+    ('c15-sequence-constants-keyerror', ['C15'], [(A, 'def resolve_sequences(items):', 'def resolve_sequences(items, constants):'), (A, '    items = resolve_sequences(items)\n', '    items = resolve_sequences(items, constants)\n'), (A, '        try:\n            values = [int(value, base=0) for value in item.values]\n        except ValueError as e:\n            raise AssemblerError(str(e), item.line)\n', '        try:\n            values = [int(value, base=0) if is_int(value) else constants[value] for value in item.values]\n        except ValueError as e:\n            raise AssemblerError(str(e), item.line)\n')]),
+    ('c15-size-is-int-other-arg', ['C15'], [(A, "        if self.name in ['li', 'call', 'tail']:\n            return 8\n", "        if self.name == 'li' and len(self.args) == 2 and is_int(self.args[0]):\n            value = c_int32(int(self.args[1], base=0)).value\n            return 8 if value != value else 8\n        if self.name in ['li', 'call', 'tail']:\n            return 8\n")]),
+    ('c15-lookup-before-handler', ['C15'], [(A, '        # check if any set of criteria is all true for this item\n        compressed = None\n', "        if isinstance(item, RTypeInstruction) and item.name == 'slli' and lookup_register(item.rd) == 0:\n            log.debug('shift into x0')\n        # check if any set of criteria is all true for this item\n        compressed = None\n")]),
     ('c15-byte-fastpath-unguarded', ['C15'], [(A, '            try:\n                value = struct.pack(fmt, value)\n', "            if item.name == 'bytes' and value >= 0:\n                data.extend(bytes([value]))\n                continue\n            try:\n                value = struct.pack(fmt, value)\n")]),
     ('c15-error-builder-wrong-attr', ['C15'], [(A, "    def __init__(self, message, line):\n        super().__init__(message)\n        self.message = message\n        self.line = line\n\n    def __str__(self):\n        return '{}\\nAssemblerError: {}'.format(self.line, self.message)\n", "    def __init__(self, message, line):\n        super().__init__(message)\n        self.message = message\n        self.line = line\n\n    def at(self, line):\n        self.where = line\n        return self\n\n    def __str__(self):\n        return '{}\\nAssemblerError: {}'.format(self.line, self.message)\n"), (A, "            raise AssemblerError('alignment must be an integer', line)\n", "            raise AssemblerError('alignment must be an integer', None).at(line)\n")]),
     ('c15-error-no-str-message-only', ['C15'], [(A, "    def __init__(self, message, line):\n        super().__init__(message)\n        self.message = message\n        self.line = line\n\n    def __str__(self):\n        return '{}\\nAssemblerError: {}'.format(self.line, self.message)\n", '    def __init__(self, message, line):\n        super().__init__(message)\n        self.message = message\n        self.line = line\n')]),
@@ -421,6 +426,13 @@ PRESERVING = [
     ('p15-range-guard-or', ['C15'], [(A, "        blob = Blob(item.line, data)\n        new_items.append(blob)\n\n        log_conversion('resolve_include_bytes', item, blob)", "        size = item.fsize\n        if size < 0 or size > 0xffffffff:\n            raise AssemblerError('file too large', item.line)\n        log.info('size field: {}'.format(struct.pack('<I', size).hex()))\n        blob = Blob(item.line, data)\n        new_items.append(blob)\n\n        log_conversion('resolve_include_bytes', item, blob)")]),
     ('p15-range-guard-chain', ['C15'], [(A, "        blob = Blob(item.line, data)\n        new_items.append(blob)\n\n        log_conversion('resolve_include_bytes', item, blob)", "        size = item.fsize\n        if not 0 <= size < 2 ** 64:\n            raise AssemblerError('file too large', item.line)\n        log.info('size field: {}'.format(size.to_bytes(8, 'little').hex()))\n        blob = Blob(item.line, data)\n        new_items.append(blob)\n\n        log_conversion('resolve_include_bytes', item, blob)")]),
     ('p15-pack-length', ['C15'], [(A, "        blob = Blob(item.line, data)\n        new_items.append(blob)\n\n        log_conversion('resolve_include_bytes', item, blob)", "        log.info('length field: {}'.format(struct.pack('<I', len(data)).hex()))\n        blob = Blob(item.line, data)\n        new_items.append(blob)\n\n        log_conversion('resolve_include_bytes', item, blob)")]),
+    # round 7: table lookups with user keys, conversions behind the repository's own predicate, elements read back
+    ('p15-sequence-constants-in', ['C15'], [(A, 'def resolve_sequences(items):', 'def resolve_sequences(items, constants):'), (A, '    items = resolve_sequences(items)\n', '    items = resolve_sequences(items, constants)\n'), (A, '        try:\n            values = [int(value, base=0) for value in item.values]\n        except ValueError as e:\n            raise AssemblerError(str(e), item.line)\n', "        values = []\n        for value in item.values:\n            if is_int(value):\n                values.append(int(value, base=0))\n            elif value in constants:\n                values.append(constants[value])\n            else:\n                raise AssemblerError('invalid literal: {}'.format(value), item.line)\n")]),
+    ('p15-sequence-constants-not-in', ['C15'], [(A, 'def resolve_sequences(items):', 'def resolve_sequences(items, constants):'), (A, '    items = resolve_sequences(items)\n', '    items = resolve_sequences(items, constants)\n'), (A, '        try:\n            values = [int(value, base=0) for value in item.values]\n        except ValueError as e:\n            raise AssemblerError(str(e), item.line)\n', "        values = []\n        for value in item.values:\n            if is_int(value):\n                values.append(int(value, base=0))\n                continue\n            if value not in constants:\n                raise AssemblerError('invalid literal: {}'.format(value), item.line)\n            values.append(constants[value])\n")]),
+    ('p15-sequence-constants-get', ['C15'], [(A, 'def resolve_sequences(items):', 'def resolve_sequences(items, constants):'), (A, '    items = resolve_sequences(items)\n', '    items = resolve_sequences(items, constants)\n'), (A, '        try:\n            values = [int(value, base=0) for value in item.values]\n        except ValueError as e:\n            raise AssemblerError(str(e), item.line)\n', "        values = []\n        for value in item.values:\n            number = int(value, base=0) if is_int(value) else constants.get(value)\n            if number is None:\n                raise AssemblerError('invalid literal: {}'.format(value), item.line)\n            values.append(number)\n")]),
+    ('p15-sequence-constants-handler', ['C15'], [(A, 'def resolve_sequences(items):', 'def resolve_sequences(items, constants):'), (A, '    items = resolve_sequences(items)\n', '    items = resolve_sequences(items, constants)\n'), (A, '        try:\n            values = [int(value, base=0) for value in item.values]\n        except ValueError as e:\n            raise AssemblerError(str(e), item.line)\n', '        try:\n            values = [int(value, base=0) if is_int(value) else constants[value] for value in item.values]\n        except (ValueError, KeyError) as e:\n            raise AssemblerError(str(e), item.line)\n')]),
+    ('p15-sequence-constants-lookuperror', ['C15'], [(A, 'def resolve_sequences(items):', 'def resolve_sequences(items, constants):'), (A, '    items = resolve_sequences(items)\n', '    items = resolve_sequences(items, constants)\n'), (A, '        try:\n            values = [int(value, base=0) for value in item.values]\n        except ValueError as e:\n            raise AssemblerError(str(e), item.line)\n', "        try:\n            values = [int(value, base=0) if is_int(value) else constants[value] for value in item.values]\n        except LookupError as e:\n            raise AssemblerError('undefined constant: {}'.format(e), item.line)\n")]),
+    ('p15-size-is-int-literal', ['C15'], [(A, "        if self.name in ['li', 'call', 'tail']:\n            return 8\n", "        if self.name == 'li' and len(self.args) == 2 and is_int(self.args[1]):\n            value = c_int32(int(self.args[1], base=0)).value\n            return 8 if value != value else 8\n        if self.name in ['li', 'call', 'tail']:\n            return 8\n")]),
     ('p15-byte-fastpath-guarded', ['C15'], [(A, '            try:\n                value = struct.pack(fmt, value)\n            except struct.error as e:\n                raise AssemblerError(\'value {} does not fit "{}": {}\'.format(value, item.name, e), item.line)\n            data.extend(value)\n', '            if item.name == \'bytes\' and 0 <= value < 256:\n                data.extend(bytes([value]))\n                continue\n            try:\n                value = struct.pack(fmt, value)\n            except struct.error as e:\n                raise AssemblerError(\'value {} does not fit "{}": {}\'.format(value, item.name, e), item.line)\n            data.extend(value)\n')]),
     ('p15-byte-append-guarded', ['C15'], [(A, '            try:\n                value = struct.pack(fmt, value)\n            except struct.error as e:\n                raise AssemblerError(\'value {} does not fit "{}": {}\'.format(value, item.name, e), item.line)\n            data.extend(value)\n', '            if item.name == \'bytes\' and 0 <= value <= 255:\n                data.append(value)\n                continue\n            try:\n                value = struct.pack(fmt, value)\n            except struct.error as e:\n                raise AssemblerError(\'value {} does not fit "{}": {}\'.format(value, item.name, e), item.line)\n            data.extend(value)\n')]),
     ('p15-range-check-to-bytes', ['C15'], [(A, '            try:\n                value = struct.pack(fmt, value)\n            except struct.error as e:\n                raise AssemblerError(\'value {} does not fit "{}": {}\'.format(value, item.name, e), item.line)\n            data.extend(value)\n', '            width = struct.calcsize(fmt)\n            if value < 0:\n                lo, hi = -(1 << (8 * width - 1)), (1 << (8 * width - 1)) - 1\n            else:\n                lo, hi = 0, (1 << (8 * width)) - 1\n            if not lo <= value <= hi:\n                raise AssemblerError(\'value {} does not fit "{}"\'.format(value, item.name), item.line)\n            data.extend(value.to_bytes(width, \'little\', signed=value < 0))\n')]),
@@ -504,6 +516,9 @@ PRESERVING = [
 UNDECIDED = [
     ('c15-line-rebuilt-shifted', ['C15'], [(A, "            line.contents = '{} {}'.format(raw_line, size)\n", "            line = Line(line.file, line.number + 1, '{} {}'.format(raw_line, size))\n")]),
     ('c15-regex-word-group', ['C15'], [(A, 'def parse_item(line_tokens):', "RE_DECIMAL = re.compile(r'(\\w+)$')\n\n\ndef parse_item(line_tokens):"), (A, "        try:\n            alignment = int(alignment, base=0)\n        except ValueError:\n            raise AssemblerError('alignment must be an integer', line)\n", "        decimal = RE_DECIMAL.match(alignment)\n        if decimal is not None and not alignment.startswith('0'):\n            alignment = int(decimal.group(1))\n        else:\n            try:\n                alignment = int(alignment, base=0)\n            except ValueError:\n                raise AssemblerError('alignment must be an integer', line)\n")]),
+    ('c15-opaque-code-only', ['C15'], [(A, 'def resolve_blobs(items):\n', "def resolve_blobs(items):\n    exec('pass')\n")]),
+    # round 7: table lookups with user keys, conversions behind the repository's own predicate, elements read back
+    ('c15-revisit-appended-element', ['C15'], [(A, "        # swap out the instruction for its compressed counterpart\n        if compressed is not None:\n            if compressed == 'c.addi4spn':", "        if compressed == 'c.ebreak' and new_items:\n            prev = new_items[-1]\n            if isinstance(prev, RTypeInstruction) and prev.name == 'slli' and lookup_register(prev.rd) == 0:\n                compressed = None\n\n        # swap out the instruction for its compressed counterpart\n        if compressed is not None:\n            if compressed == 'c.addi4spn':")]),
     ('c15-lines-iter-skip-first', ['C15'], [(A, '    for i, raw_line in enumerate(source.splitlines(), start=1):\n', '    rows = iter(source.splitlines())\n    next(rows, None)\n    for i, raw_line in enumerate(rows, start=1):\n')]),
     ('c15-line-str-vars', ['C15'], [(A, '    def __str__(self):\n        s = \'File "{}", line {}\\n  {}\'\n        s = s.format(self.file, self.number, self.contents.lstrip())\n        return s\n', '    def __str__(self):\n        return \'File "{file}", line {number}\\n  \'.format(**vars(self)) + self.contents.lstrip()\n')]),
     ('c15-lines-deque', ['C15'], [(A, 'import abc\n', 'import abc\nimport collections\n'), (A, '    for i, raw_line in enumerate(source.splitlines(), start=1):\n', '    pending = collections.deque(source.splitlines())\n    i = 0\n    while pending:\n        raw_line = pending.popleft()\n        i += 1\n')]),
